@@ -1312,6 +1312,18 @@ func runDial(s dialScn) (sig, msg string, timedOut, failed int) {
 		}
 		ln.Close()
 		addr, network = a, "tcp"
+		if s.Sweep >= 1000 {
+			// connect(2) hands out even source ports first and bind(0) odd ones: a refusing port that
+			// connect can pick as source port itself has to be an even one of the ephemeral range
+			for p := 40000 + 2*int(atomic.AddInt64(&e3SockSeq, 1)%5000); p < 60000; p += 2 {
+				l2, err := net.Listen("tcp4", fmt.Sprintf("127.0.0.1:%d", p))
+				if err == nil {
+					l2.Close()
+					addr = fmt.Sprintf("127.0.0.1:%d", p)
+					break
+				}
+			}
+		}
 	case "blackhole":
 		a, cl, ok := blackhole()
 		if !ok {
@@ -1474,7 +1486,12 @@ func TestVerifC14(t *testing.T) {
 		}
 		s.TimeoutUS = rapid.SampledFrom([]int{50, 100, 200, 500, 1000, 5000, 20000, 100000, 300000}).Draw(t, "timeout")
 		s.N = rapid.SampledFrom([]int{1, 1, 2, 8, 32}).Draw(t, "n")
-		if s.TimeoutUS <= 1000 && s.Target != "blackhole" && rapid.Bool().Draw(t, "sweep") {
+		if s.Target == "refused" && rapid.IntRange(0, 2).Draw(t, "manyRefused") == 0 {
+			// thousands of dials to one refusing local port: the kernel's choice of source port sweeps the
+			// ephemeral range and now and then picks the destination port itself (TCP self-connect, retried by the dialer)
+			s.TimeoutUS, s.N, s.Sweep = 100000, 8, 1500
+			st.class("refused-port-sweep")
+		} else if s.TimeoutUS <= 1000 && s.Target != "blackhole" && rapid.Bool().Draw(t, "sweep") {
 			s.Sweep = rapid.SampledFrom([]int{50, 200, 1000}).Draw(t, "sweepN")
 			if s.N > 8 {
 				s.N = 8
